@@ -175,7 +175,9 @@ int main()
     {
       int nvar = (int)rng.range(1, 3);
       std::string mtext;
-      Model* model = genModelTB(rng, ndim, nvar, mtext, st, false, poolTB);
+      // (thorough tier: the slow low-smoothness structures stay in the pool for the first 8 configurations only)
+      std::vector<Struc> poolNow = poolTB; if (thorough() && ic >= 8) poolNow.resize(poolTB.size() - 3);
+      Model* model = genModelTB(rng, ndim, nvar, mtext, st, false, poolNow);
       // the first two configurations of every run: a single Matern structure with smoothness below 1/2 (one variable),
       // so that the mixture-of-exponentials construction is always examined on its own
       if (ic < 2 && model != nullptr) { delete model; nvar = 1; model = Model::createFromParam(ECov::MATERN, 5. + (double)rng.range(0, 2), 1., ic == 0 ? 0.375 : 0.1875); st.hit("tb_devoted_matern_below_half"); }
